@@ -645,6 +645,15 @@ func (vc *VC) indexVal(x, i *Val, env *Env) *Val {
 			return &Val{T: fmt.Sprintf("(sat %s %s)", x.T, i.T), Ty: MathInt}
 		}
 	case *types.Pointer:
+		if at, ok := u.Elem().Underlying().(*types.Array); ok && x.T != "" {
+			// a pointer to an array that is a value (loaded from a field,
+			// a parameter): the elements live in the element heap at the
+			// pointer, as in the execution of IndexAddr
+			hn, hs := vc.elemHeap(at.Elem())
+			h := vc.getIn(env.st, hn, hs)
+			return &Val{T: fmt.Sprintf("(select (select %s %s) %s)", h, x.T, i.T), Ty: at.Elem(),
+				Loc: &Loc{Kind: RElem, Heap: hn, Base: x.T, Idx: i.T, RootT: at.Elem()}}
+		}
 		if at, ok := u.Elem().Underlying().(*types.Array); ok && x.Loc != nil {
 			nl := *x.Loc
 			nl.Path = append(append([]PathElem{}, x.Loc.Path...), PathElem{Index: i.T, ElemT: at.Elem()})
